@@ -300,6 +300,9 @@ func concurrentBuildCases(round int) []*Case {
 	for g := 0; g < 8; g++ {
 		r := sm64{uint64(round*131 + g*7 + 1)}
 		n := 1500 + r.intn(3000)
+		if round%2 == 1 {
+			n *= 5 // longer builds overlap even when the scheduler hands out few threads
+		}
 		set := map[string]struct{}{}
 		for len(set) < n {
 			// group prefix (2 bytes) + shared run of g+1..g+6 bytes + 2 distinguishing bytes
